@@ -28,6 +28,9 @@ func writeManifest() {
 	var checks []check
 	var ids []string
 	for _, p := range properties {
+		if !claimed[p.ID] {
+			continue
+		}
 		ids = append(ids, p.ID)
 		checks = append(checks, check{
 			PropertyID: p.ID,
